@@ -20,7 +20,7 @@ from contracts import dagsym as D
 def pop_latents():
     from leaspy.variables.specs import PopulationLatentVariable
     out = []
-    for label, (kind, kw) in D.KINDS.items():
+    for label, (kind, kw) in list(D.KINDS.items()) + list(D.EXTRA_KINDS.items()):
         m, specs = D.model_specs(kind, **kw)
         out += [(label, name) for name in specs if isinstance(specs[name], PopulationLatentVariable)]
     return out
@@ -99,7 +99,7 @@ class PutPopulation(Spec):
     target = "leaspy.variables.state:State.put_population_latent_variables"
 
     def configs(self):
-        return [dict(kind=k_, method=m_) for k_ in D.KINDS for m_ in ("mode", None)]
+        return [dict(kind=k_, method=m_) for k_ in list(D.KINDS) + list(D.EXTRA_KINDS) for m_ in ("mode", None)]
 
     def cfg_label(self, cfg):
         return f"{cfg['kind']}:{cfg['method']}"
@@ -108,7 +108,7 @@ class PutPopulation(Spec):
         import types
         from leaspy.variables.state import State
         from leaspy.variables.specs import PopulationLatentVariable, LatentVariableInitType
-        kind, kw = D.KINDS[cfg["kind"]]
+        kind, kw = D.KINDS.get(cfg["kind"]) or D.EXTRA_KINDS[cfg["kind"]]
         m, specs = D.model_specs(kind, **kw)
         pops = {n_: specs[n_] for n_ in specs if isinstance(specs[n_], PopulationLatentVariable)}
         dag = SymObj(types.SimpleNamespace, dict(sorted_variables_by_type={PopulationLatentVariable: pops}))
